@@ -240,6 +240,30 @@ func registerModels(P *Program) {
 		ex.assume(smt.Eq(sum, n.I))
 		return out, true
 	}
+	// sumFourSquaresSpecial (the randomised Rabin-Shallit core, not encodable) by its contract, for the
+	// obligation about the reduction steps around it: precondition n = 2 (mod 4); four non-negative
+	// integers whose squares sum to n
+	m[commonPkg+".sumFourSquaresSpecial"] = func(ex *Exec, fn *ssa.Function, args []Value) (Value, bool) {
+		if ex.Ob.Param("stub_special", 0) == 0 {
+			return nil, false
+		}
+		n := ex.argBig(args[0], "sumFourSquaresSpecial")
+		ex.panicIf(smt.Not(smt.Eq(smt.Mod(n.I, smt.I64(4)), smt.I64(2))), "sumFourSquaresSpecial called with an argument that is not 2 modulo 4 (its precondition)")
+		var hi *big.Int
+		if n.I.Hi != nil && n.I.Hi.Sign() >= 0 {
+			hi = new(big.Int).Sqrt(n.I.Hi)
+		}
+		sum := smt.I64(0)
+		out := make(Tuple, 4)
+		for i := 0; i < 4; i++ {
+			d := ex.freshInt("sq", big.NewInt(0), hi)
+			sum = smt.Add(sum, smt.Mul(d, d))
+			out[i] = ex.newBig(BigVal{I: d})
+		}
+		ex.assume(smt.Eq(sum, n.I))
+		ex.stubs["sumFourSquaresSpecial replaced by its contract: for n = 2 (mod 4), four non-negative integers whose squares sum to n"] = true
+		return out, true
+	}
 	m[commonPkg+".ModInverse"] = func(ex *Exec, fn *ssa.Function, args []Value) (Value, bool) {
 		a, n := ex.argBig(args[0], "ModInverse"), ex.argBig(args[1], "ModInverse")
 		if k := ex.modKind(n.I); k == "order" || k == "group" {
